@@ -154,7 +154,9 @@ theorem extract_annotated (c : Codec) (s : String) (hs : s ≠ "") (kvs0 mkvs0 a
 theorem prepareForApi_shape (c : Codec) (x body : JVal) (h : prepareForApi c x = some body) :
     ∃ kvs S', strip x = .obj kvs ∧ body = .obj S' ∧
       setAnnotation lastAppliedAnnotation (.str (c.dumps (.obj kvs))) kvs = some S' ∧
-      ∃ mkvs akvs, body = annotated (c.dumps (.obj kvs)) kvs mkvs akvs := by
+      ∃ mkvs akvs, body = annotated (c.dumps (.obj kvs)) kvs mkvs akvs ∧
+        (lookup "metadata" kvs).getD (.obj []) = .obj mkvs ∧
+        (lookup "annotations" mkvs).getD (.obj []) = .obj akvs := by
   unfold prepareForApi at h
   cases hx : strip x with
   | obj kvs =>
@@ -173,7 +175,7 @@ theorem prepareForApi_shape (c : Codec) (x body : JVal) (h : prepareForApi c x =
         cases ha : (lookup "annotations" mkvs).getD (.obj []) with
         | obj akvs =>
           rw [ha] at hs; simp only [Option.some.injEq] at hs
-          exact ⟨mkvs, akvs, by rw [← h, ← hs]; rfl⟩
+          exact ⟨mkvs, akvs, by rw [← h, ← hs]; rfl, by first | rfl | exact hm, by first | rfl | exact ha⟩
         | null | bool _ | int _ | flt _ | str _ | arr _ => rw [ha] at hs; simp at hs
       | null | bool _ | int _ | flt _ | str _ | arr _ => rw [hm] at hs; simp at hs
   | null | bool _ | int _ | flt _ | str _ | arr _ => rw [hx] at h; simp at h
@@ -184,7 +186,7 @@ theorem view_body_facts (c : Codec) (t x body : JVal) (hn : noDupB t = true) (ha
     (hm : meetsB .full t (strip x) (strip x) = true) (hb : prepareForApi c x = some body)
     (hr : c.reads (strip x)) :
     meetsB .full t body (strip x) = true ∧ extractLastApplied c body = some (strip x) := by
-  obtain ⟨kvs, S', hx, hbody, hs, mkvs, akvs, hann⟩ := prepareForApi_shape c x body hb
+  obtain ⟨kvs, S', hx, hbody, hs, mkvs, akvs, hann, _, _⟩ := prepareForApi_shape c x body hb
   match t, hn, ha, hm with
   | .obj tkvs, hn, ha, hm =>
     rw [hx] at hm hr ⊢
